@@ -177,7 +177,7 @@ func specialProbes(tier string) []special {
 		nest, flat, rec = 500000, 2500000, 30000
 	}
 	recs := fmt.Sprintf("%d", rec)
-	return []special{
+	all := []special{
 		{"chan-recv-empty", "(<! (makeChan))"},
 		{"chan-recv-def", "(def c (makeChan)) (<! c)"},
 		{"chan-send-unbuffered", "(def c (makeChan)) (send c 1)"},
@@ -206,6 +206,21 @@ func specialProbes(tier string) []special {
 		{"infix-deep-unary", "{" + strings.Repeat("- ", nest) + "1}"},
 		{"infix-deep-pow", "{" + strings.Repeat("2 ** ", 3000) + "1}"},
 	}
+	if tier == "thorough" {
+		return all
+	}
+	// quick tier: one short probe per class; the heavy ones run in the thorough tier only
+	quick := map[string]bool{"chan-recv-empty": true, "chan-recv-def": true, "chan-send-unbuffered": true,
+		"deep-nesting-parens": true, "long-flat-list": true, "self-containing-array": true, "self-containing-hash": true,
+		"self-containing-hash-json": true, "self-expanding-macro": true, "huge-alloc-makeArray": true,
+		"huge-alloc-makeArray-neg": true, "long-atom": true, "long-number": true, "long-string": true, "infix-deep": true}
+	var out []special
+	for _, p := range all {
+		if quick[p.name] {
+			out = append(out, p)
+		}
+	}
+	return out
 }
 
 // ---- corpus for mutation --------------------------------------------------------
